@@ -262,6 +262,10 @@ func DriveBags(w *ev.Writer, o Opts) error {
 		if !ok {
 			return fmt.Errorf("bag for unknown type %q", v.Type)
 		}
+		if v.Class == "mp_pair" { // two roots: a helper's input, not a decoder's
+			r.SkipSlot()
+			continue
+		}
 		if _, seen := d.quota[v.Type]; !seen {
 			d.quota[v.Type] = 1 << 30
 			if a := tlbx.AST(t, ""); !tlbx.HasOpaque(a) {
@@ -307,6 +311,18 @@ func Seeds(w *ev.Writer, o Opts) error {
 	}
 	rng := rand.New(rand.NewSource(o.Seed*2654435761 + 17))
 	n := 0
+	// block headers cut out of the real blocks of the repository's fixtures: the root of the block with its
+	// BlockInfo subtree, everything else replaced by pruned branches carrying the hash and depth of what they
+	// replace (what a lite server's header proof contains under its Merkle-proof cell)
+	for b := 1; b <= 5; b++ {
+		if h := realHeader(fmt.Sprintf("%s/tlb/testdata/block-%d/block.bin", repoDir(), b)); h != nil && len(h.all()) <= 14 {
+			m := h.table()
+			m["type"] = "tlb.BlockHeader"
+			m["seed"] = n
+			w.Emit(m)
+			n++
+		}
+	}
 	for tries := 0; n < want && tries < 20*want; tries++ {
 		name := names[rng.Intn(len(names))]
 		if tries < 12 { // the types the helpers decode are always among the seeds
@@ -317,7 +333,7 @@ func Seeds(w *ev.Writer, o Opts) error {
 			continue
 		}
 		all := v.all()
-		if len(all) < 2 || len(all) > 9 {
+		if len(all) < 2 || len(all) > 9 && !(tries < 12 && len(all) <= 16) {
 			continue
 		}
 		big := false
@@ -337,6 +353,54 @@ func Seeds(w *ev.Writer, o Opts) error {
 	}
 	w.Emit(ev.M{"k": "End", "events": w.N})
 	return nil
+}
+
+func repoDir() string {
+	if d := os.Getenv("VERIF_REPO"); d != "" {
+		return d
+	}
+	return "/repo"
+}
+
+func realHeader(path string) *node {
+	raw, err := os.ReadFile(path)
+	if err != nil {
+		return nil
+	}
+	roots, err := boc.DeserializeBoc(raw)
+	if err != nil || len(roots) != 1 || len(roots[0].Refs()) < 2 {
+		return nil
+	}
+	depth := map[*boc.Cell]int{}
+	var dep func(c *boc.Cell) int
+	dep = func(c *boc.Cell) int {
+		if d, ok := depth[c]; ok {
+			return d
+		}
+		d := 0
+		for _, r := range c.Refs() {
+			if k := dep(r) + 1; k > d {
+				d = k
+			}
+		}
+		depth[c] = d
+		return d
+	}
+	bs := roots[0].RawBitString()
+	root := &node{bits: bs.BinaryString()}
+	for i, r := range roots[0].Refs() {
+		if i == 0 {
+			root.refs = append(root.refs, fromCell(r, map[*boc.Cell]*node{}))
+			continue
+		}
+		h, err := r.Hash()
+		if err != nil {
+			return nil
+		}
+		d := dep(r)
+		root.refs = append(root.refs, &node{bits: byteBits(1, 1) + byteBits(h...) + byteBits(byte(d>>8), byte(d)), x: 1})
+	}
+	return root
 }
 
 var _ = strings.Repeat
